@@ -2,7 +2,7 @@
    failed apply consistent: property theorems only.  [apply fx] is the model of
    provisioning.Service.ApplyPlanLive (Prov/Apply.v); fx = false is the shipped code, fx = true
    the repaired in-place-fallback path. *)
-From Verif Require Import Base.CaseCheck Prov.Apply Prov.ApplyCheck Prov.ApplyProofs.
+From Verif Require Import Base.CaseCheck Prov.Apply Prov.ApplyCheck Prov.ApplyProofs Prov.ApplyFlow.
 
 (* a plan whose hash is not the hash of the freshly recomputed plan mutates nothing *)
 Theorem C16_stale_plan_no_mutation : forall fx i, a_hash_ok i = false -> apply fx i = ([], RStale).
@@ -86,6 +86,45 @@ Theorem C16_same_id_second_acquire_blocks : forall l1 l2 l3 a b id,
   lrun (fun _ => None) (l1 ++ LAcquire a id :: l2 ++ LAcquire b id :: l3) = None.
 Proof. exact same_id_second_acquire_blocks. Qed.
 Print Assumptions C16_same_id_second_acquire_blocks.
+
+(* ---- the end-to-end half: the decision procedure composed with an abstract record flow whose
+   behaviour under StopAndWait / Start / import / live swap is ASSUMED to be what C06, C03, C15 and
+   C13 conclude (Prov/ApplyFlow.v: C06_conclusion, C03_conclusion, C15_conclusion, C13_conclusion) *)
+
+(* no record is skipped or lost across an apply, whatever its outcome: every record read so far
+   stays durable or in flight *)
+Theorem C16_apply_no_skip : forall F,
+  C06_conclusion F -> C03_conclusion F -> C15_conclusion F -> C13_conclusion F ->
+  forall fx i f, fl_running F f = running_of i -> fl_nogap F f -> fl_nogap F (fl_run F f (fst (apply fx i))).
+Proof. exact apply_no_skip_composed. Qed.
+Print Assumptions C16_apply_no_skip.
+
+(* a restart-class apply to a running pipeline: the import runs on a fully drained pipeline and the
+   restarted pipeline continues with the successor of the last record read before *)
+Theorem C16_apply_restart_continues : forall F,
+  C06_conclusion F -> C03_conclusion F -> C15_conclusion F -> C13_conclusion F ->
+  forall fx i f,
+  a_hash_ok i = true -> a_empty i = false -> running_of i = true -> a_auth i = true -> a_live i = false ->
+  fl_running F f = true -> fl_nogap F f -> snd (apply fx i) = ROk MRestart ->
+  let g := fl_run F f (fst (apply fx i)) in
+  fst (apply fx i) = [EStop true; EImport CNew true; EStart true]
+  /\ fl_drained F (fl_stop F f true)
+  /\ fl_running F g = true /\ fl_unacked F g = 0 /\ fl_next F g = S (fl_durable F g)
+  /\ fl_next F g = fl_next F (fl_stop F f true) /\ fl_next F f <= fl_next F g.
+Proof. exact apply_restart_continues_composed. Qed.
+Print Assumptions C16_apply_restart_continues.
+
+(* a refused apply leaves the records flowing as they were *)
+Theorem C16_apply_refused_untouched : forall F fx i f,
+  (snd (apply fx i) = RStale \/ snd (apply fx i) = RUnauth) -> fl_run F f (fst (apply fx i)) = f.
+Proof. exact apply_refused_untouched_composed. Qed.
+Print Assumptions C16_apply_refused_untouched.
+
+(* the four assumptions are jointly satisfiable *)
+Theorem C16_flow_assumptions_satisfiable :
+  C06_conclusion toy_flow /\ C03_conclusion toy_flow /\ C15_conclusion toy_flow /\ C13_conclusion toy_flow.
+Proof. exact toy_flow_ok. Qed.
+Print Assumptions C16_flow_assumptions_satisfiable.
 
 (* non-vacuity: a running, authorised, not live-eligible apply drains, imports and restarts; a
    live-eligible one with a failing second swap rolls back and is consistent; two applies to
